@@ -51,14 +51,14 @@ Definition re_search_m (p s : bytes) : option bytes := if bytes_eqb p charset_re
 Definition re_group_m (m : bytes) (k : N) : bytes := if k =? 1 then m else [].
 
 (* the polib entry built from a byte-level entry of the model *)
-Definition entry_attrs : list (bytes * pyconst) :=
+Definition entry_attrs : list (bytes * pyconst) :=     (* sorted by name, as entry_setattr keeps them *)
   [ ([99; 111; 109; 109; 101; 110; 116], PNone);                                                         (* comment = None *)
-    ([111; 99; 99; 117; 114; 114; 101; 110; 99; 101; 115], PEmptyTuple);                                (* occurrences = () *)
     ([102; 108; 97; 103; 115], PEmptyTuple);                                                            (* flags = () *)
-    ([116; 114; 97; 110; 115; 108; 97; 116; 101; 100], PConstFn true);                                  (* translated = lambda: True *)
+    ([111; 99; 99; 117; 114; 114; 101; 110; 99; 101; 115], PEmptyTuple);                                (* occurrences = () *)
     ([112; 114; 101; 118; 105; 111; 117; 115; 95; 109; 115; 103; 99; 116; 120; 116], PNone);            (* previous_msgctxt = None *)
     ([112; 114; 101; 118; 105; 111; 117; 115; 95; 109; 115; 103; 105; 100], PNone);                     (* previous_msgid = None *)
-    ([112; 114; 101; 118; 105; 111; 117; 115; 95; 109; 115; 103; 105; 100; 95; 112; 108; 117; 114; 97; 108], PNone) ].   (* previous_msgid_plural = None *)
+    ([112; 114; 101; 118; 105; 111; 117; 115; 95; 109; 115; 103; 105; 100; 95; 112; 108; 117; 114; 97; 108], PNone);   (* previous_msgid_plural = None *)
+    ([116; 114; 97; 110; 115; 108; 97; 116; 101; 100], PConstFn true) ].                                (* translated = lambda: True *)
 
 Definition entry_embed (e : mo_entry) : pentry :=
   {| p_kw := {| k_msgid := Some (e_id e);
@@ -78,7 +78,7 @@ Lemma src_read_ints_1 : forall be f at_,
   src_read_ints f (endian_str be) at_ 1 = of_out (fun x => [x]) (read_int be f at_).
 Proof.
   intros be f at_. unfold src_read_ints, read_int. cbv zeta.
-  replace (at_ + 4 * 1) with (at_ + 4) by lia.
+  match goal with |- context [len f <? ?e] => replace e with (at_ + 4) by lia end.
   destruct (len f <? at_ + 4); [reflexivity|].
   unfold py_unpack_I. rewrite endian_be_str. change (N.to_nat 1) with 1%nat. unfold unpack1.
   destruct (slice f at_ (at_ + 4)) as [|b0 [|b1 [|b2 [|b3 [|b4 r]]]]]; reflexivity.
@@ -88,7 +88,7 @@ Lemma src_read_ints_2 : forall be f at_,
   src_read_ints f (endian_str be) at_ 2 = of_out (fun p => [fst p; snd p]) (read_int2 be f at_).
 Proof.
   intros be f at_. unfold src_read_ints, read_int2. cbv zeta.
-  replace (at_ + 4 * 2) with (at_ + 8) by lia.
+  match goal with |- context [len f <? ?e] => replace e with (at_ + 8) by lia end.
   destruct (len f <? at_ + 8); [reflexivity|].
   unfold py_unpack_I. rewrite endian_be_str. change (N.to_nat 2) with 2%nat. unfold unpack2.
   destruct (slice f at_ (at_ + 8)) as [|b0 [|b1 [|b2 [|b3 [|c0 [|c1 [|c2 [|c3 [|c4 r]]]]]]]]]; reflexivity.
@@ -176,6 +176,7 @@ Proof.
   intros asc dec be f i enc last mo so. unfold src_parse_entry, parse_entry, read_string. cbv zeta.
   generalize (i =? 0); intros first.
   rewrite src_read_ints_2. destruct (read_int2 be f mo) as [[n off]|[m]|c]; sx; [|reflexivity|destruct c; reflexivity].
+  rewrite ?(N.add_comm n off).
   destruct (index f (off + n)) as [t|]; sx; [|reflexivity].
   cbn [bytes_eqb]. rewrite andb_true_r. destruct (t =? 0); sx; [|reflexivity].
   generalize (slice f off (off + n)); intros msgid.
@@ -183,6 +184,7 @@ Proof.
   - reflexivity.
   - rewrite llen1. change (2 <? 1) with false. change (1 =? 1) with true. sx.
     rewrite src_read_ints_2. destruct (read_int2 be f so) as [[n2 off2]|[m]|c]; sx; [|reflexivity|destruct c; reflexivity].
+    rewrite ?(N.add_comm n2 off2).
     destruct (index f (off2 + n2)) as [t2|]; sx; [|reflexivity].
     cbn [bytes_eqb]. rewrite andb_true_r. destruct (t2 =? 0); sx; [|reflexivity].
     generalize (slice f off2 (off2 + n2)); intros msgstr.
@@ -198,13 +200,15 @@ Proof.
     + rewrite llen_ge2. reflexivity.
   - rewrite llen2. change (2 <? 2) with false. change (2 =? 1) with false. sx.
     rewrite src_read_ints_2. destruct (read_int2 be f so) as [[n2 off2]|[m]|c]; sx; [|reflexivity|destruct c; reflexivity].
+    rewrite ?(N.add_comm n2 off2).
     destruct (index f (off2 + n2)) as [t2|]; sx; [|reflexivity].
     cbn [bytes_eqb]. rewrite andb_true_r. destruct (t2 =? 0); sx; [|reflexivity].
     generalize (slice f off2 (off2 + n2)); intros msgstr.
     unfold finish_entry. cbv zeta.
     destruct (split_all 0 msgstr) as [|s0 r] eqn:Hss.
     + exfalso. exact (split_all_nonempty _ _ Hss).
-    + match goal with |- mbind _ ?K = _ =>
+    + rewrite ?andb_false_r. sx.
+      match goal with |- mbind _ ?K = _ =>
         assert (Htail : forall e, K (Some e, Some e) =
                   entry_result dec (do en <- build_entry m0 [m0; m1] msgstr (s0 :: r); Ok (en, e, m0))) end.
       { tail_block dec m0. }
